@@ -183,6 +183,8 @@ def check(tier):
     depth = 8 if tier == "thorough" else 6
     sysm = Lifecycle()
     try:
+        e2.explore(sysm, depth - 2, rep, PROP, merge=False)
+        rep.set("unmerged_histories", rep.cov.get("transitions", 0))
         e2.explore(sysm, depth, rep, PROP)
     finally:
         sysm.cleanup(None)
